@@ -2,6 +2,7 @@ import Norad.Model.FontSave
 import Norad.Lemmas.FontSave
 import Norad.Lemmas.Inplace
 import Norad.Generated.SaveOrder
+import Norad.Lemmas.SaveTable
 /-!
 # C08 — save validates before it destroys; saving in place keeps lazy data
 
@@ -388,5 +389,53 @@ open Source Generated.SaveOrder in
     features, layercontents, layers, data, images), and the source has no write the plan does not make. -/
 theorem source_save_order_matches_plan : saveSteps.filter isWrite = planOrder := by
   decide
+
+/-! ### source-level tie: the CONDITIONS of the steps of `save_impl`, as the code says them NOW
+
+`Generated.SaveOrder.saveTable` holds every top-level statement of `fn save_impl` as rows (guard atoms, step): what is
+refused on which test, `path.exists()` -> `remove_dir_all`, the unconditional `create_dir`, every write with its
+`if !self.x.is_empty()` gate, the two local variables the lib gate reads.  `Lemmas/SaveTable.lean` gives every atom and
+step the model knows its meaning in the model's terms and runs rows against the abstract file system (`execRows`). -/
+
+open Source Generated.SaveOrder in
+/-- the regenerated table, word for word, is the model's table (`Lemmas/SaveTable.lean`, kernel-evaluated) -/
+theorem source_save_table_parses : parseTable saveTable = some modelRows := saveTable_parses
+
+open Source Generated.SaveOrder in
+/-- **`saveImpl` IS the regenerated table**: the table parses (every guard atom and every step is one the model has a
+    meaning for) and running its rows - first refusing row in front of the wipe, the wipe under its guard, the rows behind
+    it as a plan of effects, each under its guard atoms - gives the outcome and the file system of the model's `saveImpl`,
+    for every font, file system and target, and for both values of the two facts the model does not look at (default
+    creator, carriage return in the feature text). -/
+theorem source_save_table_eq_model {β : Type} (cfg : Cfg β) (f : AFont β) (fs : FS β) (t : APath) (creator cr : Bool) :
+    (parseTable saveTable).map (fun rows => execRows rows cfg f fs t creator cr) = some (saveImpl cfg f fs t) := by
+  have h : parseTable saveTable = some modelRows := saveTable_parses
+  rw [h]
+  simp [execRows_model]
+
+open Source Generated.SaveOrder in
+/-- what the table says about refusals, spelled out: the rows in front of the `remove_dir_all` row are refusals only (no
+    other step, hence no effect), and a refusing row leaves the file system it was given -/
+theorem source_table_refusals_precede_wipe :
+    ((parseTable saveTable).map fun rows =>
+      (rows.takeWhile (!isWipe ·)).all fun r => match r.2 with
+        | .refuse _ => true
+        | _ => false) = some true ∧
+    ∀ {β : Type} (cfg : Cfg β) (f : AFont β) (fs : FS β) (t : APath) (creator cr : Bool) (k : Refusal),
+      (parseTable saveTable).map (fun rows => firstRefusal cfg f fs (rows.takeWhile (!isWipe ·))) = some (some k) →
+      (parseTable saveTable).map (fun rows => execRows rows cfg f fs t creator cr) = some (some (.refused k), fs) := by
+  have h : parseTable saveTable = some modelRows := saveTable_parses
+  refine ⟨by rw [h]; decide, ?_⟩
+  intro β cfg f fs t creator cr k hk
+  rw [h] at hk ⊢
+  simp only [Option.map_some, Option.some.injEq] at hk ⊢
+  unfold execRows
+  rw [hk]
+
+/-- non-vacuity: the interpreter runs - a refused save, and a save that wipes a pre-existing target -/
+example :
+    (Source.execRows Source.modelRows cfgN angleFont precious ["t".toList] true false).1 = (saveImpl cfgN angleFont precious ["t".toList]).1 ∧
+    (Source.execRows Source.modelRows cfgN { angleFont with info := { body := 0, guides := [], valid := true, serialisable := true } }
+      precious ["t".toList] true false).1 = none := by decide
 
 end C08
